@@ -356,15 +356,17 @@ ValuesOp ==
     /\ LET p == Top(0) IN
        /\ p # 0
        /\ \A i \in DOMAIN h.k[p] : IF IsStruct(h, h.k[p][i]) THEN StructAcyclic(h, h.k[p][i]) ELSE TRUE
-       /\ NeedAll(h, h.k[p]) + 1 <= Cardinality(Free(h))
-       /\ LET c  == MinOf(Free(h))
-              h0 == [h EXCEPT !.kd[c] = "arr", !.rc[c] = 1]              \* reserve the result
-              h1 == [h0 EXCEPT !.rc[p] = @ - 1]
+       /\ LET h1 == [h EXCEPT !.rc[p] = @ - 1]
               isRef == h1.rc[p] # 0
-              h2 == IF h.kd[p] = "map" /\ ~isRef THEN [h1 EXCEPT !.refs = @ - Len(h.k[p])] ELSE h1
-              r  == CpValues(h.k[p], 1, isRef, h2, <<>>)
-              h3 == [r.hh EXCEPT !.k[c] = r.out]
-          IN Finish(h3, Append(PopN(1), c), statics, frames, Lab("values", 0, 0, h.kd[p]))
+              \* (model economy) an unreferenced acyclic source is garbage afterwards: the result takes its id
+              reuse == ~isRef /\ p \notin ReachFrom(h.k, KidSet(h.k, p))
+          IN /\ NeedAll(h, h.k[p]) + (IF reuse THEN 0 ELSE 1) <= Cardinality(Free(h))
+             /\ LET c  == IF reuse THEN p ELSE MinOf(Free(h))
+                    hr == IF reuse THEN h1 ELSE [h1 EXCEPT !.kd[c] = "arr"]         \* reserve the result
+                    h2 == IF h.kd[p] = "map" /\ ~isRef THEN [hr EXCEPT !.refs = @ - Len(h.k[p])] ELSE hr
+                    r  == CpValues(h.k[p], 1, isRef, h2, <<>>)
+                    h3 == [r.hh EXCEPT !.kd[c] = "arr", !.k[c] = r.out, !.mk[c] = <<>>, !.rc[c] = 1]
+                IN Finish(h3, Append(PopN(1), c), statics, frames, Lab("values", 0, 0, h.kd[p]))
 
 \* KEYS: Pop, new array of the (primitive) keys, IncRC, pushItemCounted(len+1)
 KeysOp ==
@@ -445,11 +447,10 @@ AbsCount == L!CountSafe(Obs)                       \* NoUnderCount /\ ExactAcycl
 AbsStep  == [][L!StepOK(Obs, Obs')]_vars           \* every step of the model is a step of the abstract level
 
 \* while acyclic: an item's counter = references from root cells + from referenced compounds
-RcExact ==
-    ~everCyc => \A c \in Ids \ Free(h) :
-        h.rc[c] = Occ(stack, c) + Occ(statics, c)
-                  + FoldSet(LAMBDA i, a : a + Occ(frames[i].loc, c), 0, DOMAIN frames)
-                  + FoldSet(LAMBDA d, a : a + (IF h.rc[d] > 0 THEN Occ(h.k[d], c) ELSE 0), 0, Ids \ Free(h))
+RcRefs(c) == Occ(stack, c) + Occ(statics, c)
+             + FoldSet(LAMBDA i, a : a + Occ(frames[i].loc, c), 0, DOMAIN frames)
+             + FoldSet(LAMBDA d, a : a + (IF h.rc[d] > 0 THEN Occ(h.k[d], c) ELSE 0), 0, Ids \ Free(h))
+RcExact == ~everCyc => \A c \in Ids \ Free(h) : h.rc[c] = RcRefs(c)
 \* reachable items are referenced, the counter is never negative
 RcSane == /\ h.refs >= 0
           /\ \A c \in ReachFrom(h.k, RootSet(stack, statics, frames)) : h.rc[c] >= 1
@@ -457,8 +458,10 @@ RcSane == /\ h.refs >= 0
 TypeOK == /\ Len(stack) <= MaxStack /\ Len(frames) <= MaxFrames
           /\ \A c \in Ids : Len(h.k[c]) <= MaxKids /\ (h.kd[c] = "map" => Len(h.mk[c]) = Len(h.k[c]))
 
-\* leaked cycles only ever add to the counter: exploring a bounded surplus is enough
-LeakBound == h.refs <= Walked + MaxLeak
+\* leaked cycles only ever add to the counter: exploring a bounded surplus is enough (the lower bound only
+\* matters when the graph of a model that violates AbsCount is explored for the transition cover)
+LeakBound == /\ h.refs <= Walked + MaxLeak /\ h.refs >= Walked - MaxLeak
+             /\ \A c \in Ids \ Free(h) : h.rc[c] <= RcRefs(c) + MaxLeak /\ h.rc[c] >= RcRefs(c) - MaxLeak
 
 \* `last` is a label only
 View == <<h, stack, statics, frames, everCyc>>
